@@ -12,6 +12,9 @@ Lemma remove_suffix_plain c n : plain c -> remove_suffix c n = n.
 Proof. intros [A B]. unfold remove_suffix. rewrite A, B, !trim_suffix_nil. reflexivity. Qed.
 Lemma add_suffix_plain c n : plain c -> add_suffix c n = n.
 Proof. intros [A B]. unfold add_suffix. rewrite A, B, !app_nil_r. reflexivity. Qed.
+Lemma suffix_if_plain c (b : bool) n : plain c -> (if b then add_suffix c n else n) = n.
+Proof. intro HP. destruct b; [apply add_suffix_plain; exact HP|reflexivity]. Qed.
+
 
 (* ---------- state plumbing *)
 Lemma with_rows_rows p l : rows (with_rows p l) = l. Proof. reflexivity. Qed.
